@@ -131,4 +131,13 @@ PROPS = {
         "what": "outcome of every request vs model; spec: equals the model's full tree matching for the same method and path",
         "assumes": [],
     },
+    "C12": {
+        "n_quick": 2500, "n_thorough": 60000,
+        "technique": "Coq proof (the Replacer scan equals simultaneous hole filling, by induction on the skeleton) + correspondence on URLPath calls and on rebuilding dispatched requests",
+        "level_text": "proof: C12_simultaneous / C12_replacer_is_fill for every route, every value assignment with brace-free names, with and without the optional segment; tied to the code by Router.URLPath calls on named routes with values containing braces, other bind names, slashes, empty, duplicate and dangling pairs, withOptional variants, unknown/empty/duplicate names (panic), and by feeding each dispatched request's parameters back into URLPath",
+        "level_note": "trusts Coq kernel, extraction, glue; strings.NewReplacer is modelled (first pair in argument order whose key is a prefix; for brace-free names keys cannot overlap, so Go's map iteration order is irrelevant); C12_inverse at route level is checked by correspondence, not proved",
+        "rule": "1-4 registrations (10% ill-formed), most of them named (names incl. empty and duplicates), 2-7 URLPath calls per history with values from {'', v, {x}, {y}, /, {, }, {id}x, a}{b, 7, a/b, %41, 'x y'}, unknown names, withOptional true/false/1, repeated and dangling pairs; half followed by a request to an instance of the route whose delivered parameters are rebuilt both with and without the optional segment. Non-trivial: a supplied value contains a brace, or a dispatched request of the named route is rebuilt; distinct by input.",
+        "what": "model Router.URLPath vs implementation (string or panic) per call; spec: result = simultaneous filling of the skeleton (fill), rebuilt path = request path for %-free paths.",
+        "assumes": ["bind names and literals are brace-free (guaranteed by the route grammar)"],
+    },
 }
